@@ -16,6 +16,7 @@ CONSTANTS MaxEv,     \* number of evaluate() calls per handle (2: Evaluate ; ReE
           MaxHandles,\* handles built one after the other inside one construct_dag() block (1: no sharing)
           Modes,     \* calling conventions explored: subset of {"call", "full"}
           UserCacheOn, \* TRUE: every description also as a pipeline with a user cache (first / all functions cached; the flag does not restrict reuse)
+          CacheKinds,  \* the kinds of user cache explored (cache_type): "simple" (the kind a construct_dag() block keeps using) and/or "lru" (replaced by the block's own cache)
           FaultsOn,  \* TRUE: every description also with fault plans (FaultChoice)
           MaxFailEv  \* evaluate() calls per handle that raise (the model's bound on retries under a persistent fault)
 
@@ -24,9 +25,10 @@ CONSTANTS MaxEv,     \* number of evaluate() calls per handle (2: Evaluate ; ReE
 (* the universe can be split over several TLC processes (Shard of NShards) by a cheap hash of the description *)
 DescHash(dd) == Len(dd.funcs[1].params) + 3 * Len(dd.funcs[2].params) + Len(dd.funcs[2].bound)
                 + (IF NF(dd) > 2 THEN 7 * Len(dd.funcs[3].params) + 2 * Len(dd.funcs[3].bound) ELSE 0)
-WithCache(dd, S) == IF S = {} THEN dd
-                    ELSE [funcs |-> [i \in FIdx(dd) |-> [dd.funcs[i] EXCEPT !.cache = (i \in S)]], cache_type |-> "simple"]
-CacheChoice(dd)  == IF UserCacheOn THEN {{1}, FIdx(dd)} ELSE {{}}
+(* a cache choice is <<the functions flagged cache=True, the cache_type>> *)
+WithCache(dd, c) == IF c[1] = {} THEN dd
+                    ELSE [funcs |-> [i \in FIdx(dd) |-> [dd.funcs[i] EXCEPT !.cache = (i \in c[1])]], cache_type |-> c[2]]
+CacheChoice(dd)  == IF UserCacheOn THEN {{1}, FIdx(dd)} \X CacheKinds ELSE {<<{}, "">>}
 (* fault plans: none; one function raising on its first invocation only (transient) / on every invocation (persistent); *)
 (* every function raising on its first invocation                                                                        *)
 One(dd, i, k)    == [j \in FIdx(dd) |-> IF j = i THEN k ELSE 0]
@@ -35,8 +37,8 @@ FaultChoice(dd)  == IF FaultsOn THEN {Zero(dd), [j \in FIdx(dd) |-> 1]} \cup {On
 WithFaults(dd, F) == IF F = Zero(dd) THEN dd
                      ELSE IF "cache_type" \in DOMAIN dd THEN [funcs |-> dd.funcs, cache_type |-> dd.cache_type, faults |-> F]
                      ELSE [funcs |-> dd.funcs, faults |-> F]
-LUInit == \E dd \in {x \in Universe : Valid(x) /\ DescHash(x) % NShards = Shard} : \E S \in CacheChoice(dd) :
-              \E F \in FaultChoice(dd) : LazyInit(WithFaults(WithCache(dd, S), F))
+LUInit == \E dd \in {x \in Universe : Valid(x) /\ DescHash(x) % NShards = Shard} : \E c \in CacheChoice(dd) :
+              \E F \in FaultChoice(dd) : LazyInit(WithFaults(WithCache(dd, c), F))
 LUNext == UNCHANGED allvars
 LUSpec == LUInit /\ [][LUNext]_allvars
 LEmit  == PrintT(<<"CASE", ToJson([desc |-> d,
@@ -78,6 +80,7 @@ LNext == \/ (phase = "idle" /\ Cardinality(memo) <= NF(d) /\ \E o \in AllOutputs
          \/ LEnd
          \/ (nh + 1 < MaxHandles /\ LDropKeep)
          \/ CloseBlock
+         \/ BlockLeft(FALSE)      \* (leaving the with statement: CloseBlock, or nothing at all - whether it is left normally or by an exception)
 LBSpec == LUInit /\ [][LNext]_allvars
 (* the eager twin alone (its fault plan is independent of the lazy pipeline's: exploring the two in one state space would *)
 (* only multiply them)                                                                                                   *)
@@ -131,4 +134,11 @@ Mutants(g) == {DropEdge(g, e) : e \in g.edges}
               \cup {DropNode(g, x) : x \in FuncIds(g)}
               \cup {DupNode(g, x) : x \in FuncIds(g)}
 InvMutantsRejected == (lazy /\ graph # NoGraph /\ memo = {}) => \A m \in Mutants(graph) : ~TaskGraphOK(d, kw, out, m)
+(* the same whenever no node can predate the block - nothing was called before, or the block does not work on the pipeline's own *)
+(* cache (OwnCacheInBlock) -, however full that cache is: a recorded graph that lacks a task of the evaluation, or an edge between *)
+(* two of them, because those tasks were taken from the user cache, is rejected                                                  *)
+InvMutantsRejectedNoOld == (lazy /\ graph # NoGraph /\ RefHit = {}) =>
+                              \A m \in Mutants(graph) : ~TaskGraphOKReuse(d, kw, out, m, memo, mode = "full")
+(* a user cache of another kind than the block's never contributes a node to a recorded graph *)
+InvForeignCacheNeverOld == (lazy /\ UserCache(d) /\ ~OwnCacheInBlock(d)) => (RefHit = {} /\ (graph # NoGraph => graph = ReferenceGraphFor(d, kw, out, {}, mode = "full")))
 =============================================================================
